@@ -161,6 +161,33 @@ fn threaded(src: &str, n: usize) {
     }
 }
 
+fn norm_spacing(s: &str) -> String {
+    let cs: Vec<char> = s.chars().collect();
+    let mut out = String::with_capacity(cs.len());
+    let is_w = |c: char| c.is_alphanumeric() || c == '_' || c == '\'' || c == '"';
+    let mut i = 0;
+    while i < cs.len() {
+        if cs[i].is_whitespace() {
+            let mut j = i;
+            while j < cs.len() && cs[j].is_whitespace() {
+                j += 1;
+            }
+            let prev = out.chars().last();
+            let next = cs.get(j).copied();
+            if let (Some(p), Some(n)) = (prev, next) {
+                if is_w(p) && is_w(n) {
+                    out.push(' ');
+                }
+            }
+            i = j;
+        } else {
+            out.push(cs[i]);
+            i += 1;
+        }
+    }
+    out
+}
+
 fn main() {
     let args: Vec<String> = std::env::args().collect();
     let want_code = args.iter().any(|a| a == "--code");
@@ -226,7 +253,10 @@ fn main() {
                 for e in &errs {
                     println!("ERR {}", hex(e));
                 }
-                println!("CODE {} {:016x}", o.len(), fnv(&o));
+                // the hash ignores token spacing (`> (` vs `>(`: proc_macro2 renders Joint/Alone punctuation differently
+                // although the token sequences are the same): a space is dropped unless it separates two word characters
+                let on = norm_spacing(&o);
+                println!("CODE {} {:016x}", on.len(), fnv(&on));
                 if want_code {
                     println!("CODETEXT {}", hex(&o));
                 }
